@@ -48,6 +48,11 @@ type FuncSpec struct {
 	Ensures   []*Clause
 	Invs      []*Clause
 	Asserts   []*Clause
+	Relational bool
+	RelRequires []*Clause
+	RelEnsures  []*Clause
+	RelInvs     []*Clause
+	RelAsserts  []*Clause
 	Assumes   []*Clause // explicit call-site assumptions (listed in the evidence)
 	Props     []*Clause // propagates
 	Modifies  []string
@@ -183,6 +188,61 @@ func (ss *SpecSet) parseFile(path string) error {
 				tg = cur.Tags
 			}
 			return &Clause{Kind: kind, Expr: e, Text: text, Tags: tg, File: path, Line: l.no, Mode: cmode, Local: clocal, WF: cwf}, nil
+		}
+		if kw == "relational" {
+			cur.Relational = true
+			continue
+		}
+		if kw == "rel" {
+			// rel requires E | rel ensures E | rel loop N invariant E | rel assert site : E
+			f := strings.Fields(rest)
+			if len(f) < 2 || cur == nil {
+				return fail("bad rel clause")
+			}
+			cur.Relational = true
+			body := strings.TrimSpace(strings.TrimPrefix(rest, f[0]))
+			switch f[0] {
+			case "requires", "ensures":
+				c, err := mk("rel-"+f[0], body)
+				if err != nil {
+					return err
+				}
+				if f[0] == "requires" {
+					c.Ord = len(cur.RelRequires) + 1
+					cur.RelRequires = append(cur.RelRequires, c)
+				} else {
+					c.Ord = len(cur.RelEnsures) + 1
+					cur.RelEnsures = append(cur.RelEnsures, c)
+				}
+			case "loop":
+				n, err := strconv.Atoi(f[1])
+				if err != nil || len(f) < 4 || f[2] != "invariant" {
+					return fail("rel loop N invariant E")
+				}
+				body = strings.TrimSpace(body[strings.Index(body, "invariant")+9:])
+				c, err := mk("rel-invariant", body)
+				if err != nil {
+					return err
+				}
+				c.Loop = n
+				c.Ord = len(cur.RelInvs) + 1
+				cur.RelInvs = append(cur.RelInvs, c)
+			case "assert":
+				i := strings.Index(body, ":")
+				if i < 0 {
+					return fail("rel assert site : expr")
+				}
+				c, err := mk("rel-assert", strings.TrimSpace(body[i+1:]))
+				if err != nil {
+					return err
+				}
+				c.Site = strings.TrimSpace(body[:i])
+				c.Ord = len(cur.RelAsserts) + 1
+				cur.RelAsserts = append(cur.RelAsserts, c)
+			default:
+				return fail("bad rel clause")
+			}
+			continue
 		}
 		switch kw {
 		case "func", "lemma":
